@@ -416,7 +416,113 @@ Fixpoint inl (fuel : nat) (s : str) (pend : nat) : str :=
     end
   end.
 
-Definition inline_html (s : str) : str := inl (S (length s)) s 0.
+(* ---- emphasis and strong emphasis (spec 6.2): delimiter runs of * and _ with their flanking, then the delimiter-stack
+   algorithm of the specification's appendix.  ASCII only: white space is space, tab, newline and the ends of the text;
+   punctuation is ASCII punctuation. ---- *)
+Definition is_ws_o (o : option N) : bool := match o with None => true | Some c => N.eqb c 32 || N.eqb c 10 || N.eqb c 9 end.
+Definition is_punct (c : N) : bool :=
+  ((33 <=? c) && (c <=? 47) || (58 <=? c) && (c <=? 64) || (91 <=? c) && (c <=? 96) || (123 <=? c) && (c <=? 126))%N.
+Definition is_punct_o (o : option N) : bool := match o with None => false | Some c => is_punct c end.
+Inductive itok := TTxt (h : str) | TDelim (c : N) (n : nat) (co cc : bool).
+(* numeric character references (spec 2.5): &#1234567; (1-7 digits) and &#x10FFFF; (1-6 hex digits); named references
+   are outside F *)
+Definition is_hex (c : N) : bool := is_digit c || ((65 <=? c) && (c <=? 70))%N || ((97 <=? c) && (c <=? 102))%N.
+Definition hex_val (c : N) : N := if is_digit c then (c - 48)%N else if (c <=? 70)%N then (c - 55)%N else (c - 87)%N.
+Fixpoint take_hex (s : str) : str := match s with c :: r => if is_hex c then c :: take_hex r else [] | [] => [] end.
+Fixpoint hex_of (acc : N) (s : str) : N := match s with c :: r => hex_of (acc * 16 + hex_val c)%N r | [] => acc end.
+Definition ref_char (v : N) : N :=
+  if N.eqb v 0 || ((55296 <=? v) && (v <=? 57343))%N || (1114112 <=? v)%N then 65533%N else v.
+(* s is what follows the ampersand *)
+Definition num_ref (s : str) : option (N * str) :=
+  match s with
+  | 35%N :: x :: r' =>
+      if N.eqb x 120 || N.eqb x 88 then
+        let ds := take_hex r' in
+        if (1 <=? length ds) && (length ds <=? 6) then
+          match dropn (length ds) r' with 59%N :: rest => Some (ref_char (hex_of 0 ds), rest) | _ => None end
+        else None
+      else
+        let ds := take_digits (x :: r') in
+        if (1 <=? length ds) && (length ds <=? 7) then
+          match dropn (length ds) (x :: r') with 59%N :: rest => Some (ref_char (num_of 0 ds), rest) | _ => None end
+        else None
+  | _ => None
+  end.
+Definition flanking (c : N) (prev next : option N) : bool * bool :=
+  let left := negb (is_ws_o next) && (negb (is_punct_o next) || is_ws_o prev || is_punct_o prev) in
+  let right := negb (is_ws_o prev) && (negb (is_punct_o prev) || is_ws_o next || is_punct_o next) in
+  if N.eqb c star then (left, right)
+  else (left && (negb right || is_punct_o prev), right && (negb left || is_punct_o next)).
+Definition txt_sp (pend : nat) : list itok := match pend with 0 => [] | _ => [TTxt (repeat_c sp pend)] end.
+Fixpoint itoks (fuel : nat) (prev : option N) (s : str) (pend : nat) : list itok :=
+  match fuel with
+  | 0 => []
+  | S f =>
+    match s with
+    | [] => []
+    | c :: r =>
+        if is_sp c then itoks f (Some c) r (S pend)
+        else if N.eqb c 10 then TTxt ((if 2 <=? pend then br_ else []) ++ nl) :: itoks f (Some c) (lstrip r) 0
+        else if N.eqb c bt then
+          let k := lead bt s in
+          match find_close (length s) k (dropn k s) [] with
+          | Some (content, rest) => txt_sp pend ++ TTxt (code_open ++ esc (code_content content) ++ code_end) :: itoks f (Some bt) rest 0
+          | None => txt_sp pend ++ TTxt (repeat_c bt k) :: itoks f (Some bt) (dropn k s) 0
+          end
+        else if N.eqb c star || N.eqb c us then
+          let k := lead c s in
+          let rest := dropn k s in
+          let '(co, cc) := flanking c prev (match rest with x :: _ => Some x | [] => None end) in
+          txt_sp pend ++ TDelim c k co cc :: itoks f (Some c) rest 0
+        else if N.eqb c 38 then
+          match num_ref r with
+          | Some (ch, rest) => txt_sp pend ++ TTxt (esc1 ch) :: itoks f (Some 59%N) rest 0
+          | None => txt_sp pend ++ TTxt (esc1 c) :: itoks f (Some c) r 0
+          end
+        else txt_sp pend ++ TTxt (esc1 c) :: itoks f (Some c) r 0
+    end
+  end.
+
+Inductive sitem := SHtml (h : str) | SDel (c : N) (n orig : nat) (co cc : bool).
+Definition flat_item (i : sitem) : str := match i with SHtml h => h | SDel c n _ _ _ => repeat_c c n end.
+Definition odd_match (c_co cc' : bool) (orig' orig : nat) : bool :=
+  (c_co || cc') && Nat.eqb ((orig' + orig) mod 3) 0 && negb (Nat.eqb (orig' mod 3) 0 && Nat.eqb (orig mod 3) 0).
+(* the nearest opener below the top of the stack that matches a closer (c, orig, can-open) *)
+Fixpoint find_opener (c : N) (orig : nat) (c_co : bool) (st above : list sitem) : option (list sitem * (nat * nat * bool * bool) * list sitem) :=
+  match st with
+  | [] => None
+  | SDel c' n' o' co' cc' :: r =>
+      if N.eqb c c' && co' && negb (odd_match c_co cc' o' orig) then Some (above, (n', o', co', cc'), r)
+      else find_opener c orig c_co r (SDel c' n' o' co' cc' :: above)
+  | it :: r => find_opener c orig c_co r (it :: above)
+  end.
+Definition em_open (two : bool) : str := if two then lit [60;115;116;114;111;110;103;62] else lit [60;101;109;62].
+Definition em_close (two : bool) : str := if two then lit [60;47;115;116;114;111;110;103;62] else lit [60;47;101;109;62].
+Fixpoint close_delim (fuel : nat) (st : list sitem) (c : N) (n orig : nat) (co cc : bool) : list sitem :=
+  match fuel with
+  | 0 => st
+  | S f =>
+    if Nat.eqb n 0 then st
+    else match find_opener c orig co st [] with
+         | None => (if co then SDel c n orig co cc else SHtml (repeat_c c n)) :: st
+         | Some (inner, (n', o', co', cc'), below) =>
+             let two := (2 <=? n) && (2 <=? n') in
+             let use := if two then 2 else 1 in
+             let node := SHtml (em_open two ++ concat (map flat_item inner) ++ em_close two) in
+             let below' := if Nat.eqb (n' - use) 0 then below else SDel c (n' - use) o' co' cc' :: below in
+             close_delim f (node :: below') c (n - use) orig co cc
+         end
+  end.
+Definition push_tok (st : list sitem) (t : itok) : list sitem :=
+  match t with
+  | TTxt h => SHtml h :: st
+  | TDelim c n co cc =>
+      if cc then close_delim (S n) st c n n co cc
+      else (if co then SDel c n n co cc else SHtml (repeat_c c n)) :: st
+  end.
+Definition inline_html (s : str) : str :=
+  concat (map flat_item (rev (fold_left push_tok (itoks (S (length s)) None s 0) []))).
+
 Definition p_ : str := lit [112]. Definition h_ n : str := [104%N; digit n].
 Definition pre_open : str := lit [60;112;114;101;62;60;99;111;100;101].
 Definition code_close : str := lit [60;47;99;111;100;101;62;60;47;112;114;101;62].
@@ -451,9 +557,20 @@ Definition html (ls:list str) : str := concat (map (html_node false) (parse_doc 
 
 (* ---- the fragment F: what the model covers ---- *)
 Definition excluded_char (c : N) : bool :=
-  N.eqb c 9 || N.eqb c 42 || N.eqb c 95 || N.eqb c 92 || N.eqb c 38 || N.eqb c 33 || N.eqb c 60 || N.eqb c 91 || N.eqb c 13.
+  N.eqb c 9 || N.eqb c 92 || N.eqb c 33 || N.eqb c 60 || N.eqb c 91 || N.eqb c 13.
 (* a backtick is allowed only in a line that consists of backticks and an info word (a fence line) *)
 Definition backtick_ok (line : str) : bool :=
   negb (existsb (N.eqb bt) line) || (let b := lstrip line in (3 <=? lead bt b) && negb (existsb (N.eqb bt) (dropn (lead bt b) b))).
-Definition line_in_F (line : str) : bool := negb (existsb excluded_char line).
+(* the flanking rules of emphasis use Unicode white space and punctuation; the model knows the ASCII classes only *)
+(* an ampersand only as the start of a numeric character reference (named references need the entity table), and not on a
+   fence line (the info string is not modelled with references) *)
+Fixpoint amp_ok (s : str) : bool :=
+  match s with
+  | [] => true
+  | c :: r => if N.eqb c 38 then (match r with 35%N :: _ => amp_ok r | _ => false end) else amp_ok r
+  end.
+Definition fence_line (line : str) : bool := let b := lstrip line in (3 <=? lead bt b) || (3 <=? lead tilde b).
+Definition line_in_F (line : str) : bool :=
+  negb (existsb excluded_char line) && amp_ok line && negb (existsb (N.eqb 38) line && fence_line line) &&
+  (negb (existsb (fun c => N.eqb c star || N.eqb c us) line) || forallb (fun c => N.ltb c 128) line).
 Definition in_F (ls : list str) : bool := forallb line_in_F ls.
